@@ -364,6 +364,19 @@ func (d *legacyDom) Exec(a []string) string {
 			if rr.Result == nil {
 				return "noresult"
 			}
+			// a `null` (or missing) model/collection is not a model/collection: the fold of
+			// events over a collection is always a JSON array
+			var raw struct {
+				Result map[string]json.RawMessage `json:"result"`
+			}
+			json.Unmarshal(resp, &raw)
+			if d.model {
+				if m, ok := raw.Result["model"]; !ok || string(m) == "null" {
+					return "model-null"
+				}
+			} else if c, ok := raw.Result["collection"]; !ok || string(c) == "null" {
+				return "coll-null"
+			}
 			if d.model {
 				if rr.Result.Model == nil {
 					return "model:"
